@@ -324,7 +324,31 @@ fn main() {
     let jobs_done = AtomicU64::new(0);
     let alphabet_done = AtomicU64::new(0);
     let total = Mutex::new(Cnt::default());
+    // safety net: linfa-linalg's SVD loop has no iteration cap; a job that does not come back is a
+    // machinery error with the case printed, never a silent hang
+    let inflight: std::sync::Arc<Mutex<Vec<(u64, std::time::Instant, String)>>> = std::sync::Arc::new(Mutex::new(Vec::new()));
+    {
+        let inflight = inflight.clone();
+        std::thread::spawn(move || loop {
+            std::thread::sleep(std::time::Duration::from_secs(5));
+            let g = inflight.lock().unwrap();
+            if let Some((_, _, what)) = g.iter().find(|(_, t, _)| t.elapsed().as_secs() > 150) {
+                println!("MACHINERY-ERROR a job did not finish within 150 s (subject does not terminate?): {}", what);
+                std::process::exit(2);
+            }
+        });
+    }
+    let job_ids = AtomicU64::new(0);
     par_sweep(&ctx, "c16 sweep", &jobs, |job| {
+        let id = job_ids.fetch_add(1, Ordering::Relaxed);
+        inflight.lock().unwrap().push((
+            id,
+            std::time::Instant::now(),
+            match job {
+                Job::Alphabet { n, p, start, end, .. } => format!("alphabet matrices {}x{} #{}..{}", n, p, start, end),
+                Job::One(c) => serde_json::to_string(&json!({"family": c.family, "float": c.float, "p": c.p, "train": c.train})).unwrap(),
+            },
+        ));
         let mut cnt = Cnt::default();
         let mut viols: Vec<Violation> = Vec::new();
         match job {
@@ -360,6 +384,7 @@ fn main() {
         cnt.ood = 0;
         cnt.indet = 0;
         total.lock().unwrap().merge(cnt);
+        inflight.lock().unwrap().retain(|(i, _, _)| *i != id);
         jobs_done.fetch_add(1, Ordering::Relaxed);
     });
     for (k, n) in &total.lock().unwrap().extra {
